@@ -35,7 +35,7 @@ ASSUMPTIONS = [
 ]
 MANIFEST = {
     'level': 'fault_enumeration',
-    'technique': 'runtime monitoring with enumerated fault injection on the real read_message -> UpdateHandler / JSON API path, oracle = RFC 7606 class table + reference decoder',
+    'technique': 'runtime monitoring with enumerated fault injection on the real read_message -> UpdateHandler / JSON API path, oracle = RFC 7606 class table + reference decoder; a sample of the catalogue sent over TCP to the real exabgp process, judged on what its real helper process is told between marker UPDATEs',
     'text': 'The attribute x corruption matrix is enumerated completely; each case is pushed through the production receive path and '
     'the announce/withdraw members of the API event, the Adj-RIB-In content and the NOTIFICATION code are compared with the '
     'RFC 7606 class of the corrupted attribute.',
@@ -263,7 +263,7 @@ def make_case(asn4, base, tl, code, cname, raw, last=False, control=False, repla
 
 
 def plan(tier, seed):
-    return [{'shard': i, 'nshards': 16} for i in range(16)]
+    return [{'shard': i, 'nshards': 16} for i in range(16)] + [{'shard': 900 + i, 'daemon': True, 'part': i, 'parts': 2, 'cases': 60 if tier == 'quick' else 400} for i in range(4)]
 
 
 class Stats(dict):
@@ -329,6 +329,123 @@ def reference_view(body: bytes, asn4: bool):
         return 'bad', rw.RefError(3, 1, f'reference raised {type(e).__name__}')
 
 
+def expected_class(case):
+    """what RFC 7606 asks for this corruption: RESET / WITHDRAW / DISCARD / None (accepted) / 'missing'"""
+    code, cname = case['code'], case['corruption']
+    if 'want' in case:
+        return case['want']
+    if case['control']:
+        return None
+    if cname == 'mp-flags-transitive':
+        return WITHDRAW  # RFC 7606 3.c: wrong attribute flags -> treat-as-withdraw, also for MP_REACH
+    if cname.startswith('mp') or code in (14, 15):
+        return RESET
+    if cname.startswith('block-truncated'):
+        return WITHDRAW  # RFC 7606 section 4: attribute overruns the block -> treat-as-withdraw (NLRI can still be located)
+    if cname == 'missing-mandatory':
+        return 'missing'  # a MISSING attribute is not a malformed one: outside the statement, logged only
+    if cname.startswith('duplicate'):
+        return None if code not in (14, 15) else RESET  # RFC 7606 3.g: all but the first discarded - decoded normally
+    if cname == 'overrun-block':
+        return WITHDRAW
+    return CLASS.get(code)
+
+
+def run_daemon(desc):
+    """the catalogue sent over TCP to the REAL daemon, a marker UPDATE after each case; what its real helper process is told
+    between two markers must not announce the routes of a message RFC 7606 calls malformed (treat-as-withdraw or reset), and a
+    reset is a NOTIFICATION of code 3.  Same violation keys as in-process, so the recorded findings are recognised"""
+    import time
+
+    from vlib import daemon
+
+    res = Result()
+    asn4 = desc['part'] % 2 == 0
+    cases = [c for c in build_cases(asn4) if not c['control'] and expected_class(c) in (WITHDRAW, RESET)]
+    mine = [c for i, c in enumerate(cases) if i % desc['parts'] == desc['part'] // 2]
+    random.Random(desc['seed'] * 2971 + desc['part']).shuffle(mine)
+    mine = mine[: desc['cases']]
+    text = 'process sink {\n    run @PY@ @DIR@/sink.py @DIR@/events;\n    encoder json;\n}\n' + exa.neighbor_text(families=[(1, 1), (2, 1)], asn4=True, extra='    adj-rib-in true;\n    api { processes [ sink ]; receive { parsed; update; } }')
+    d = daemon.Daemon(text, env={'exabgp_log_level': 'ERROR'})
+    peer = None
+    test_prefixes = {n['prefix'] for n in V4_NLRI + V6_NLRI}
+    seen_lines = 0
+    mk = 0
+    try:
+        d.start()
+        for case in mine:
+            code, cname = case['code'], case['corruption']
+            aname = NAMES.get(code, f'attr{code}' if code else 'block')
+            cls = f'daemon:{aname}:{cname}'
+            want = expected_class(case)
+            body = bytes.fromhex(case['body'])
+            kind, ref = reference_view(body, asn4)
+            if kind == 'ok' and cname in ('len+1', 'len-1', 'len0', 'extlen-bit-short-header') and ref_attr_ok(ref, code, asn4):
+                continue  # the corruption produced something the RFC grammar accepts
+            wit = {'case': {k: case[k] for k in ('asn4', 'base', 'code', 'corruption')}, 'body': case['body'], 'level': 'daemon'}
+            if peer is None:
+                peer = d.accept(timeout=60)
+                peer.establish(65001, peer_asn4=asn4)
+            peer.send(2, body)
+            mk += 1
+            mark = '203.0.%d.%d' % (100 + mk // 250, mk % 250)
+            try:
+                peer.send(2, rw.enc_update_body(b'', rw.enc_attr(0x40, 1, b'\x00') + rw.enc_attr(0x40, 2, bytes([2, 1]) + (struct.pack('!L', 65001) if asn4 else struct.pack('!H', 65001))) + rw.enc_attr(0x40, 3, bytes([192, 0, 2, 1])), bytes([32]) + bytes(int(x) for x in mark.split('.'))))
+            except OSError:
+                pass
+            end = time.monotonic() + 40
+            outcome = None
+            while outcome is None:
+                ty, b = peer.read_message(0.03)
+                if ty == 3:
+                    outcome = ('notification', b[0], b[1])
+                elif ty is None:
+                    outcome = ('closed',)
+                elif ty == 'timeout':
+                    lines = d.lines('events')
+                    if any(mark + '/32' in x for x in lines[seen_lines:]):
+                        outcome = ('continues',)
+                    elif not d.alive():
+                        res.violation(f'C08/daemon:process-exits:{aname}:{cname}', 'the daemon exited', dict(wit, log=d.tail(1500)), cls)
+                        return res
+                    elif time.monotonic() > end:
+                        raise daemon.Inconclusive('neither the marker nor the end of the session within 40 s')
+            time.sleep(0.05)
+            lines = d.lines('events')
+            new, seen_lines = lines[seen_lines:], len(lines)
+            announced = []
+            for ln in new:
+                try:
+                    ev = norm.strict_loads(ln)
+                    obs = norm.update_observed(ev)
+                except Exception:  # noqa
+                    continue
+                announced += [a[0][1] for a in obs['announce'] if a[0][1] in test_prefixes or norm.canon_prefix(a[0][1]) in test_prefixes]
+            wit.update(api_announce=announced, outcome=outcome)
+            if outcome[0] == 'notification' and outcome[1] != 3:
+                res.violation(f'C08/reset-wrong-code:{aname}:{cname}:{outcome[1]}/{outcome[2]}', f'{cls}: session reset with {outcome[1]}/{outcome[2]}, not an UPDATE Message Error', wit, cls)
+            elif announced:
+                res.violation(f'C08/announced-despite-treat-as-withdraw:{aname}:{cname}', f'{cls}: routes {announced} reported as announced to the helper of the real daemon', wit, cls)
+            elif want == RESET and outcome[0] == 'continues':
+                res.violation(f'C08/no-reset:{aname}:{cname}', f'{cls}: RFC 7606 asks for a session reset; the session went on', wit, cls)
+            else:
+                res.ok(cls, ('daemon', aname, cname, outcome[0]))
+                res.ok('daemon:catalogue')
+            if outcome[0] != 'continues':
+                peer.close()
+                peer = None
+    except daemon.Inconclusive as e:
+        daemon.skipped(res, str(e))
+    finally:
+        try:
+            if peer is not None:
+                peer.close()
+        except Exception:  # noqa
+            pass
+        d.stop()
+    return res
+
+
 def judge(res: Result, case, loop):
     from exabgp.bgp.message import Update
     from exabgp.reactor.api.response import Response
@@ -343,25 +460,7 @@ def judge(res: Result, case, loop):
     cls = f'{aname}:{cname}'
     sig = (aname, cname, case['base'], asn4)
     wit = {'case': {k: case[k] for k in ('asn4', 'base', 'code', 'corruption')}, 'body': case['body']}
-    # expected class
-    if 'want' in case:
-        want = case['want']
-    elif case['control']:
-        want = None
-    elif cname == 'mp-flags-transitive':
-        want = WITHDRAW  # RFC 7606 3.c: wrong attribute flags -> treat-as-withdraw, also for MP_REACH
-    elif cname.startswith('mp') or code in (14, 15):
-        want = RESET
-    elif cname.startswith('block-truncated'):
-        want = WITHDRAW  # RFC 7606 section 4: attribute overruns the block -> treat-as-withdraw (NLRI can still be located)
-    elif cname == 'missing-mandatory':
-        want = 'missing'  # a MISSING attribute is not a malformed one: outside the statement, logged only
-    elif cname.startswith('duplicate'):
-        want = None if code not in (14, 15) else RESET  # RFC 7606 3.g: all but the first discarded - decoded normally
-    elif cname == 'overrun-block':
-        want = WITHDRAW
-    else:
-        want = CLASS.get(code)
+    want = expected_class(case)
     nb.rib.incoming.clear()
     out = loop.run_until_complete(through_read_message(nb, neg, body))
     if out[0] == 'raise':
@@ -463,6 +562,8 @@ def ref_attr_ok(ref, code, asn4):
 
 
 def run_shard(desc):
+    if desc.get('daemon'):
+        return run_daemon(desc)
     res = Result()
     exa.quiet()
     loop = asyncio.new_event_loop()
@@ -508,3 +609,5 @@ def run_shard(desc):
 
 def finish(merged, tier, seed):
     merged['extra']['exhaustive'] = True
+    if not merged['classes'].get('daemon:catalogue'):
+        merged['inconclusive'].append('the daemon level judged no case')
